@@ -422,21 +422,36 @@ int close(int fd)
     return (v_choice() & 1) ? -1 : 0;
 }
 
-/* further stdio writers: same record log as fprintf */
-int fputs(const char *s, FILE *fp) { int r = fprintf(fp, "%s", s); return (r < 0) ? EOF : 1; }
-int fputc(int c, FILE *fp) { int r = fprintf(fp, "%c", c); return (r < 0) ? EOF : (unsigned char)c; }
-int puts(const char *s) { int r = fprintf(stdout, "%s\n", s); return (r < 0) ? EOF : 1; }
+/* further stdio writers: same record log as fprintf, without going through the format interpreter */
+static int v_stdio_put(FILE *fp, const char *bytes, size_t n)
+{
+    int dest = (fp == stdout) ? V_DEST_STDOUT : (fp == stderr) ? V_DEST_STDERR : V_DEST_FILE;
+    int i = (dest == V_DEST_FILE) ? v_stream_index(fp) : -1;
+    if (dest == V_DEST_FILE) {
+        V_ASSERT(i >= 0 && v_st[i].open, "STDIO MISUSE write: stream is not open (use after close)");
+        if (i < 0) return -1;
+        V_ASSERT(v_st[i].writable, "STDIO MISUSE write: stream not opened for writing");
+    }
+    struct v_wrec scratch;
+    struct v_wrec *r = (v_nw < V_NW) ? &v_w[v_nw] : &scratch;
+    for (size_t k = 0; k < n && k < V_WCAP; k++) r->data[k] = bytes[k];
+    r->dest = dest; r->stream = i; r->len = n;
+    if (n > 0) v_nw++;
+    if (v_choice() & 1) { r->complete = 0; errno = v_errno_choice(); return -1; }
+    r->complete = 1;
+    if (dest == V_DEST_STDOUT) v_stdout_pending += n;
+    else if (dest == V_DEST_FILE) {
+        struct v_stream *st = &v_st[i];
+        if (st->bufmode == _IONBF) { st->os_writes += 1; st->os_bytes += n; }
+        else st->pending += n;          /* (line-buffered streams: only fprintf models the per-newline flush) */
+    }
+    return (int)n;
+}
+int fputs(const char *s, FILE *fp) { return (v_stdio_put(fp, s, strlen(s)) < 0) ? EOF : 1; }
+int fputc(int c, FILE *fp) { char ch = (char)c; return (v_stdio_put(fp, &ch, 1) < 0) ? EOF : (unsigned char)c; }
+int puts(const char *s) { if (v_stdio_put(stdout, s, strlen(s)) < 0) return EOF; return (v_stdio_put(stdout, "\n", 1) < 0) ? EOF : 1; }
 size_t fwrite(const void *p, size_t size, size_t nmemb, FILE *fp)
 {
-    /* bytes up to the first NUL are what the record log can show; callers here write text */
-    size_t n = size * nmemb;
-    int r = fprintf(fp, "%.*s", (int)n, (const char *)p);
+    int r = v_stdio_put(fp, (const char *)p, size * nmemb);
     return (r < 0 || size == 0) ? 0 : (size_t)r / size;
-}
-
-int access(const char *path, int mode)
-{
-    (void)path; (void)mode;
-    if (v_choice() & 1) { errno = v_errno_choice(); return -1; }
-    return 0;
 }
